@@ -770,6 +770,27 @@ impl PartitionedFileGroup {
         mount1 == mount2
     }
 
+    /// Returns the number of symbolic links that have to be followed to get from the path
+    /// to a file that is not a symbolic link.
+    fn link_hops(path: &Path) -> usize {
+        let mut hops = 0;
+        let mut current = path.to_path_buf();
+        // the system gives up on longer chains as well
+        while hops < 40 {
+            match fs::read_link(&current) {
+                Ok(target) => {
+                    current = match current.parent() {
+                        Some(parent) => parent.join(target),
+                        None => target,
+                    };
+                    hops += 1;
+                }
+                Err(_) => break,
+            }
+        }
+        hops
+    }
+
     /// Returns a list of commands that would remove redundant files in this group when executed.
     pub fn dedupe_script(mut self, strategy: &DedupeOp, devices: &DiskDevices) -> Vec<FsCommand> {
         if self.to_drop.is_empty() {
@@ -780,8 +801,15 @@ impl PartitionedFileGroup {
             "No files would be left after deduplicating"
         );
         let mut commands = Vec::new();
-        // Symbolic links go first, while the files they point to still exist.
-        self.to_drop.sort_by_key(|f| f.link_metadata.is_none());
+        // Symbolic links go first, while the files they point to still exist, and a link
+        // pointing to another link goes before that link.
+        self.to_drop.sort_by_key(|f| {
+            let hops = match &f.link_metadata {
+                Some(_) => Self::link_hops(&f.path),
+                None => 0,
+            };
+            Reverse(hops)
+        });
         // Link to a real file. A hard link to a symbolic link would be another symbolic link,
         // and a relative one would point to a different place.
         let is_link = |f: &PathAndMetadata| f.link_metadata.is_some();
